@@ -221,18 +221,31 @@ Definition toggles_within (t : toggles) (capable : N) : Prop :=
   (t_killpriv_v2 t = true -> contains capable F_HANDLE_KILLPRIV_V2 = true) /\
   (t_perfile_dax t = true -> contains capable F_PERFILE_DAX = true).
 
-(* first INIT of an instance: every switch that is on has its bit in the capability word *)
-Theorem pt_init_fresh c capable : toggles_within (snd (pt_init c toggles_off capable)) capable.
+(* after ANY init (whatever the switches were before): every switch that is on has its bit in the
+   capability word of that init *)
+Theorem pt_init_any c t capable : toggles_within (snd (pt_init c t capable)) capable.
 Proof.
-  unfold pt_init, toggles_within. cbn [snd t_writeback t_no_open t_no_opendir t_killpriv_v2 t_perfile_dax toggles_off orb].
+  unfold pt_init, toggles_within. cbn [snd t_writeback t_no_open t_no_opendir t_killpriv_v2 t_perfile_dax].
   repeat split; intro H; try (apply andb_prop in H; apply H); exact H.
 Qed.
 
-Theorem ovl_init_fresh c capable : toggles_within (snd (ovl_init c toggles_off capable)) capable.
+Theorem ovl_init_any c t capable : toggles_within (snd (ovl_init c t capable)) capable.
 Proof.
-  unfold ovl_init, toggles_within. cbn [snd t_writeback t_no_open t_no_opendir t_killpriv_v2 t_perfile_dax toggles_off orb].
-  repeat split; intro H; try (apply andb_prop in H; apply H); exact H.
+  unfold ovl_init, toggles_within. cbn [snd t_writeback t_no_open t_no_opendir t_killpriv_v2 t_perfile_dax].
+  repeat split; intro H; apply andb_prop in H; apply H.
 Qed.
+
+(* the switches after an init do not depend on the switches before it *)
+Theorem pt_init_overwrites c t t' capable : pt_init c t capable = pt_init c t' capable.
+Proof. reflexivity. Qed.
+Theorem ovl_init_overwrites c t t' capable : ovl_init c t capable = ovl_init c t' capable.
+Proof. reflexivity. Qed.
+
+Theorem pt_init_fresh c capable : toggles_within (snd (pt_init c toggles_off capable)) capable.
+Proof. apply pt_init_any. Qed.
+
+Theorem ovl_init_fresh c capable : toggles_within (snd (ovl_init c toggles_off capable)) capable.
+Proof. apply ovl_init_any. Qed.
 
 (* under a VFS (do_import = false) the passthrough layer honours exactly the word it is given *)
 Theorem pt_under_vfs_exact c capable :
@@ -316,8 +329,8 @@ Proof.
 Qed.
 
 (* ------------------------------------------------------------------ histories (INIT, DESTROY, INIT, ...) *)
-(* FULL statement: after any number of earlier INIT/DESTROY rounds, the switches on after an INIT
-   were negotiated by THAT init. *)
+(* after any number of earlier INIT/DESTROY rounds, the switches on after an INIT were negotiated by
+   THAT init (true since fix 3c323ec; before it the switches were never stored back to false) *)
 Definition pt_history_full : Prop :=
   forall c caps capable, toggles_within (snd (pt_init c (pt_run c toggles_off caps) capable)) capable.
 Definition ovl_history_full : Prop :=
@@ -325,106 +338,19 @@ Definition ovl_history_full : Prop :=
 
 Definition all_caps : N := 18446744073709551615.
 
-(* refuted by the model: the switches are never stored back to false *)
-Theorem pt_history_refuted : ~ pt_history_full.
-Proof.
-  intro H. specialize (H under_vfs [all_caps] 0). destruct H as [_ [H _]].
-  vm_compute in H. specialize (H eq_refl). discriminate.
-Qed.
+Theorem pt_history_holds : pt_history_full.
+Proof. intros c caps capable. apply pt_init_any. Qed.
 
-Theorem ovl_history_refuted : ~ ovl_history_full.
-Proof.
-  intro H. specialize (H under_vfs [all_caps] 0). destruct H as [_ [H _]].
-  vm_compute in H. specialize (H eq_refl). discriminate.
-Qed.
+Theorem ovl_history_holds : ovl_history_full.
+Proof. intros c caps capable. apply ovl_init_any. Qed.
 
-(* what does hold for every history: a switch that is on was negotiated by SOME init of the history *)
-Definition some_cap (caps : list N) (m : N) : Prop := exists cap, In cap caps /\ contains cap m = true.
-
-Definition toggles_from (t : toggles) (caps : list N) : Prop :=
-  (t_writeback t = true -> some_cap caps F_WRITEBACK_CACHE) /\
-  (t_no_open t = true -> some_cap caps F_ZERO_MESSAGE_OPEN) /\
-  (t_no_opendir t = true -> some_cap caps F_ZERO_MESSAGE_OPENDIR) /\
-  (t_killpriv_v2 t = true -> some_cap caps F_HANDLE_KILLPRIV_V2) /\
-  (t_perfile_dax t = true -> some_cap caps F_PERFILE_DAX).
-
-Lemma some_cap_mono seen cap caps m : some_cap (seen ++ [cap]) m -> some_cap (seen ++ cap :: caps) m.
-Proof.
-  intros [x [Hin Hx]]. exists x. split; [|exact Hx]. apply in_app_or in Hin. apply in_or_app.
-  destruct Hin as [Hin|[->|[]]]; [left; exact Hin|right; left; reflexivity].
-Qed.
-
-Lemma toggles_from_step (init_fn : lcfg -> toggles -> N -> N * toggles) :
-  (forall c t capable, let t' := snd (init_fn c t capable) in
-     (t_writeback t' = true -> t_writeback t = true \/ contains capable F_WRITEBACK_CACHE = true) /\
-     (t_no_open t' = true -> t_no_open t = true \/ contains capable F_ZERO_MESSAGE_OPEN = true) /\
-     (t_no_opendir t' = true -> t_no_opendir t = true \/ contains capable F_ZERO_MESSAGE_OPENDIR = true) /\
-     (t_killpriv_v2 t' = true -> t_killpriv_v2 t = true \/ contains capable F_HANDLE_KILLPRIV_V2 = true) /\
-     (t_perfile_dax t' = true -> t_perfile_dax t = true \/ contains capable F_PERFILE_DAX = true)) ->
-  forall (c : lcfg) seen t cap, toggles_from t seen -> toggles_from (snd (init_fn c t cap)) (seen ++ [cap]).
-Proof.
-  intros Hstep c seen t cap [A1 [A2 [A3 [A4 A5]]]].
-  destruct (Hstep c t cap) as [S1 [S2 [S3 [S4 S5]]]].
-  assert (K : forall m, some_cap seen m \/ contains cap m = true -> some_cap (seen ++ [cap]) m).
-  { intros m [[x [Hin Hx]]|Hc].
-    - exists x. split; [apply in_or_app; left; exact Hin|exact Hx].
-    - exists cap. split; [apply in_or_app; right; left; reflexivity|exact Hc]. }
-  repeat split; intro H; apply K.
-  - destruct (S1 H) as [P|P]; [left; exact (A1 P)|right; exact P].
-  - destruct (S2 H) as [P|P]; [left; exact (A2 P)|right; exact P].
-  - destruct (S3 H) as [P|P]; [left; exact (A3 P)|right; exact P].
-  - destruct (S4 H) as [P|P]; [left; exact (A4 P)|right; exact P].
-  - destruct (S5 H) as [P|P]; [left; exact (A5 P)|right; exact P].
-Qed.
-
-Lemma pt_step c t capable : let t' := snd (pt_init c t capable) in
-     (t_writeback t' = true -> t_writeback t = true \/ contains capable F_WRITEBACK_CACHE = true) /\
-     (t_no_open t' = true -> t_no_open t = true \/ contains capable F_ZERO_MESSAGE_OPEN = true) /\
-     (t_no_opendir t' = true -> t_no_opendir t = true \/ contains capable F_ZERO_MESSAGE_OPENDIR = true) /\
-     (t_killpriv_v2 t' = true -> t_killpriv_v2 t = true \/ contains capable F_HANDLE_KILLPRIV_V2 = true) /\
-     (t_perfile_dax t' = true -> t_perfile_dax t = true \/ contains capable F_PERFILE_DAX = true).
-Proof.
-  unfold pt_init. cbn [snd t_writeback t_no_open t_no_opendir t_killpriv_v2 t_perfile_dax].
-  repeat split; intro H; apply orb_prop in H; destruct H as [H|H]; try (left; exact H);
-    right; try (apply andb_prop in H; apply H); exact H.
-Qed.
-
-Lemma ovl_step c t capable : let t' := snd (ovl_init c t capable) in
-     (t_writeback t' = true -> t_writeback t = true \/ contains capable F_WRITEBACK_CACHE = true) /\
-     (t_no_open t' = true -> t_no_open t = true \/ contains capable F_ZERO_MESSAGE_OPEN = true) /\
-     (t_no_opendir t' = true -> t_no_opendir t = true \/ contains capable F_ZERO_MESSAGE_OPENDIR = true) /\
-     (t_killpriv_v2 t' = true -> t_killpriv_v2 t = true \/ contains capable F_HANDLE_KILLPRIV_V2 = true) /\
-     (t_perfile_dax t' = true -> t_perfile_dax t = true \/ contains capable F_PERFILE_DAX = true).
-Proof.
-  unfold ovl_init. cbn [snd t_writeback t_no_open t_no_opendir t_killpriv_v2 t_perfile_dax].
-  repeat split; intro H; apply orb_prop in H; destruct H as [H|H]; try (left; exact H);
-    right; apply andb_prop in H; apply H.
-Qed.
-
-Lemma toggles_from_off : toggles_from toggles_off [].
-Proof. repeat split; cbn; discriminate. Qed.
-
-Lemma pt_run_from c caps : forall seen t, toggles_from t seen -> toggles_from (pt_run c t caps) (seen ++ caps).
-Proof.
-  induction caps as [|cap r IH]; intros seen t H; cbn [pt_run].
-  - rewrite app_nil_r. exact H.
-  - replace (seen ++ cap :: r) with ((seen ++ [cap]) ++ r) by (rewrite <- app_assoc; reflexivity).
-    apply IH. unfold layer_destroy. apply (toggles_from_step pt_init pt_step). exact H.
-Qed.
-
-Lemma ovl_run_from c caps : forall seen t, toggles_from t seen -> toggles_from (ovl_run c t caps) (seen ++ caps).
-Proof.
-  induction caps as [|cap r IH]; intros seen t H; cbn [ovl_run].
-  - rewrite app_nil_r. exact H.
-  - replace (seen ++ cap :: r) with ((seen ++ [cap]) ++ r) by (rewrite <- app_assoc; reflexivity).
-    apply IH. unfold layer_destroy. apply (toggles_from_step ovl_init ovl_step). exact H.
-Qed.
-
-Theorem pt_history_partial c caps : toggles_from (pt_run c toggles_off caps) caps.
-Proof. apply (pt_run_from c caps [] toggles_off toggles_from_off). Qed.
-
-Theorem ovl_history_partial c caps : toggles_from (ovl_run c toggles_off caps) caps.
-Proof. apply (ovl_run_from c caps [] toggles_off toggles_from_off). Qed.
+(* stronger: the switches after the last INIT of a history are those of a fresh instance given that word *)
+Theorem pt_history_last c caps capable :
+  snd (pt_init c (pt_run c toggles_off caps) capable) = snd (pt_init c toggles_off capable).
+Proof. reflexivity. Qed.
+Theorem ovl_history_last c caps capable :
+  snd (ovl_init c (ovl_run c toggles_off caps) capable) = snd (ovl_init c toggles_off capable).
+Proof. reflexivity. Qed.
 
 (* ------------------------------------------------------------------ behaviours *)
 Definition behaviour_within (b : behaviour) (capable : N) : Prop :=
@@ -434,44 +360,51 @@ Definition behaviour_within (b : behaviour) (capable : N) : Prop :=
   (b_killpriv b = true -> contains capable F_HANDLE_KILLPRIV_V2 = true) /\
   (b_dax b = true -> contains capable F_PERFILE_DAX = true).
 
-Theorem pt_behaviour_negotiated c capable :
-  behaviour_within (pt_behaviour c (snd (pt_init c toggles_off capable))) capable.
+Theorem pt_behaviour_negotiated_any c t capable :
+  behaviour_within (pt_behaviour c (snd (pt_init c t capable))) capable.
 Proof.
-  destruct (pt_init_fresh c capable) as [A [B [C [D E]]]].
+  destruct (pt_init_any c t capable) as [A [B [C [D E]]]].
   unfold behaviour_within, pt_behaviour. cbn [b_open_enosys b_opendir_enosys b_writeback_flags b_killpriv b_dax].
   repeat split; assumption.
 Qed.
 
-(* FULL statement for the overlay; refuted: open()/create() follow the configuration switch *)
+Theorem pt_behaviour_negotiated c capable :
+  behaviour_within (pt_behaviour c (snd (pt_init c toggles_off capable))) capable.
+Proof. apply pt_behaviour_negotiated_any. Qed.
+
+(* every overlay behaviour is on only when negotiated by the last INIT, whatever happened before
+   (true since fix 018111a; before it open()/create() followed the configuration switch) *)
 Definition ovl_behaviour_full : Prop :=
-  forall c capable, behaviour_within (ovl_behaviour c (snd (ovl_init c toggles_off capable))) capable.
+  forall c t capable, behaviour_within (ovl_behaviour c (snd (ovl_init c t capable))) capable.
 
-Theorem ovl_behaviour_refuted : ~ ovl_behaviour_full.
+Theorem ovl_behaviour_holds : ovl_behaviour_full.
 Proof.
-  intro H. specialize (H (mkC true true false false false false) 0). destruct H as [_ [_ [H _]]].
-  vm_compute in H. specialize (H eq_refl). discriminate.
-Qed.
-
-(* it holds when the writeback switch is not configured, and always for the other four behaviours *)
-Theorem ovl_behaviour_partial c capable :
-  let b := ovl_behaviour c (snd (ovl_init c toggles_off capable)) in
-  (b_open_enosys b = true -> contains capable F_ZERO_MESSAGE_OPEN = true) /\
-  (b_opendir_enosys b = true -> contains capable F_ZERO_MESSAGE_OPENDIR = true) /\
-  (c_writeback c = false -> b_writeback_flags b = false) /\
-  b_killpriv b = false /\ b_dax b = false.
-Proof.
-  destruct (ovl_init_fresh c capable) as [A [B [C [D E]]]].
-  unfold ovl_behaviour. cbn [b_open_enosys b_opendir_enosys b_writeback_flags b_killpriv b_dax].
-  repeat split; try assumption; try reflexivity. intro H; exact H.
+  intros c t capable. destruct (ovl_init_any c t capable) as [A [B [C [D E]]]].
+  unfold behaviour_within, ovl_behaviour. cbn [b_open_enosys b_opendir_enosys b_writeback_flags b_killpriv b_dax].
+  repeat split; try assumption; discriminate.
 Qed.
 
 (* ------------------------------------------------------------------ statements as used by Props/C12.v *)
 Definition toggles_history_full : Prop := pt_history_full /\ ovl_history_full.
-Theorem toggles_history_refuted : ~ toggles_history_full.
-Proof. intros [H _]. exact (pt_history_refuted H). Qed.
-Theorem toggles_history_partial c caps :
-  toggles_from (pt_run c toggles_off caps) caps /\ toggles_from (ovl_run c toggles_off caps) caps.
-Proof. split; [apply pt_history_partial|apply ovl_history_partial]. Qed.
+Theorem toggles_history_holds : toggles_history_full.
+Proof. split; [exact pt_history_holds|exact ovl_history_holds]. Qed.
+
+(* the former refutation witnesses, now examples of the repaired behaviour *)
+Lemma reinit_witness_pt :
+  t_no_open (pt_run under_vfs toggles_off [all_caps]) = true /\
+  snd (pt_init under_vfs (pt_run under_vfs toggles_off [all_caps]) 0) = toggles_off.
+Proof. vm_compute. split; reflexivity. Qed.
+
+Lemma reinit_witness_ovl :
+  t_no_open (ovl_run under_vfs toggles_off [all_caps]) = true /\
+  snd (ovl_init under_vfs (ovl_run under_vfs toggles_off [all_caps]) 0) = toggles_off.
+Proof. vm_compute. split; reflexivity. Qed.
+
+Lemma ovl_writeback_witness :
+  let c := mkC true true false false false false in
+  b_writeback_flags (ovl_behaviour c (snd (ovl_init c toggles_off 0))) = false /\
+  b_writeback_flags (ovl_behaviour c (snd (ovl_init c toggles_off F_WRITEBACK_CACHE))) = true.
+Proof. vm_compute. split; reflexivity. Qed.
 
 Lemma flag_constants_short :
   fsopt "WRITEBACK_CACHE" = F_WRITEBACK_CACHE /\ fsopt "ZERO_MESSAGE_OPEN" = F_ZERO_MESSAGE_OPEN /\
